@@ -484,9 +484,10 @@ func checkHTML(r *mon.Run, a *agg, idx int, s []byte) {
 func TestC32(t *testing.T) {
 	r := mon.Start(t, "C32")
 	defer r.Finish()
-	r.Rule("tables: EXHAUSTIVE over all 256 byte values for each of the 8 lookup tables, each entry observed through the public path that reads it (percent-decoding and readHexInt; host/scheme lower-casing; key canonicalisation; AppendQuotedArg; URI path escaping; header name/value validation in request and response parsing; method validation), plus all 65536 %XY pairs; compared with predicates written from RFC 3986 §2.3 and RFC 9110 §5.5/§5.6.2 (cross-checked against net/url and net/textproto). canonicalisation: every token of 1-3 tchars (quick: 1-2 + every 3-token over a reduced alphabet) + seeded random tokens of 1-24 tchars, through AppendNormalizedHeaderKey(Bytes), RequestHeader.Set and the wire parser, vs textproto.CanonicalMIMEHeaderKey. HTML: every string of 0-2 bytes + seeded random strings (specials boosted, arbitrary bytes) vs html.EscapeString. distinct = (table, byte class) / (token length, dashes, letters, changed) / (string length, specials, position); all cases are non-trivial (each reads a table entry or transforms a string)")
+	r.Rule("tables: EXHAUSTIVE over all 256 byte values for each of the 8 lookup tables, each entry observed through the public path that reads it (percent-decoding and readHexInt; host/scheme lower-casing; key canonicalisation; AppendQuotedArg; URI path escaping; header name/value validation in request and response parsing; method validation), plus all 65536 %XY pairs; compared with predicates written from RFC 3986 §2.3 and RFC 9110 §5.5/§5.6.2 (cross-checked against net/url and net/textproto). canonicalisation: every token of 1-3 tchars (quick: 1-2 + every 3-token over a reduced alphabet) + seeded random tokens of 1-24 tchars, through AppendNormalizedHeaderKey(Bytes), RequestHeader.Set and the wire parser, vs textproto.CanonicalMIMEHeaderKey. HTML: every string of 0-2 bytes + seeded random strings (specials boosted, arbitrary bytes) vs html.EscapeString. applied mapping: for each of the 256 byte values, each buffer length 1-40 (thorough 96) and each position, mixed-case letter filler, through URI.SetHost(Bytes), URI.SetScheme(Bytes), URI.Parse (host argument, URL host, URL scheme), RequestHeader.SetHostBytes->Request.URI().Host and AppendNormalizedHeaderKeyBytes, each result byte vs the predicate. header blocks: seeded blocks of 2-8 lines (token lines after lines with inner-space names, trailing-space names, empty values, obs-fold, special headers) through ResponseHeader.Read, RequestHeader.Read and the chunked-trailer path of Response.Read/Request.Read; the stored key of every token line vs textproto. distinct = (table, byte class) / (token length, dashes, letters, changed) / (string length, specials, position) / (api, byte class, length mod 8, inside a whole 8-byte word) / (parser, lines, odd-line kinds, changed tokens); all cases are non-trivial (each reads a table entry or transforms a string)")
 	r.Assume("net/url, net/textproto and html are correct (they only cross-check the RFC predicates / serve as the reference the property names)")
-	r.Assume("toUpperTable: every call site (normalizeHeaderKey, header scanner, trailer parser) validates the key bytes with validHeaderFieldByte first, so only the 77 tchar entries are reachable through any public path; the other 179 entries cannot influence behaviour and are NOT observed (an accessor would be needed: see report)")
+	r.Assume("toUpperTable: every call site validates the key bytes first, so only the 77 tchar entries are reachable through a public path; the other entries are compared through the VerifTables accessor (table constants), as are all eight tables")
+	r.Assume("applied case mapping: inputs an API rejects or restructures (URI.Parse on bytes that are not host/scheme characters, '@', '%XX') are skipped and counted; header blocks a parser rejects are counted, not judged; lines whose name is not a token (inner space) are counted, not judged")
 	r.Assume("header-name parsing: SP inside a name (tolerated by design, fasthttp issue 1917) and ':' (ends the name) are not judged on the parsing path; their table entries are observed through AppendNormalizedHeaderKey")
 	r.Set("exhaustive_tables", true)
 	walls := map[string]float64{}
@@ -631,6 +632,15 @@ func TestC32(t *testing.T) {
 	r.Require("html_exhaustive", 1+256+65536)
 	r.Require("html_random", nHTML)
 	lap("html")
+
+	// --- 4: the table constants themselves (accessor), the case mapping as applied on
+	// the code paths, and canonicalisation inside multi-line header blocks
+	tableConstants(r)
+	lap("table_constants")
+	appliedCase(r)
+	lap("applied_case_mapping")
+	headerBlocks(r)
+	lap("header_blocks")
 }
 
 func randToken(rnd *rand.Rand) []byte {
